@@ -301,7 +301,7 @@ class Exec:
             # symbolic*symbolic products / division by non-power-of-2 constants: exact translation to integer arithmetic
             # (engine/bv2int.py; sat answers are re-validated on the original bit-vector formulas) before bit-blasting for real
             import bv2int
-            ir = bv2int.try_solve(assumptions, min(s.lim.query_ms, 30000))
+            ir = bv2int.try_solve(assumptions, s.lim.query_ms)
             if ir is not None:
                 dt = time.time() - t; s.qtime += dt; s.qmax = max(s.qmax, dt)
                 return ir[1]
